@@ -58,6 +58,9 @@ def val(e, env):
         for v in vs[1:]:
             r = z3.If(v < r, v, r) if t == 'min' else z3.If(v > r, v, r)
         return r
+    if t == 'avg':
+        vs = [val(x, env) for x in e[1]]
+        return z3.Sum(vs) / len(vs)
     if t == 'and':
         return b2n(z3.And([truthy(val(x, env)) for x in e[1]]))
     if t == 'or':
@@ -94,7 +97,7 @@ def defined(e, env):
         t = e[0]
         if t in ('num', 'var'):
             return
-        if t in ('min', 'max', 'and', 'or'):
+        if t in ('min', 'max', 'and', 'or', 'avg'):
             for x in e[1]:
                 walk(x)
             return
@@ -111,7 +114,7 @@ def children(e):
     t = e[0]
     if t in ('num', 'var'):
         return []
-    if t in ('min', 'max', 'and', 'or'):
+    if t in ('min', 'max', 'and', 'or', 'avg'):
         return list(e[1])
     return list(e[1:])
 
@@ -173,6 +176,8 @@ def pyval(e, env):
         return min(pyval(x, env) for x in e[1])
     if t == 'max':
         return max(pyval(x, env) for x in e[1])
+    if t == 'avg':
+        return sum(pyval(x, env) for x in e[1]) / len(e[1])
     T = lambda x: pyval(x, env) != 0
     B = lambda b: Fraction(1 if b else 0)
     if t == 'and':
